@@ -222,7 +222,10 @@ def run_flags(ctx: Ctx, rule: str) -> None:
                    "" if ok else "the run policy of the manual step template changed")
     f = ctx.repo.func("cartgraph/graph.py:TestGraph.flag_children")
     src = ast.unparse(f.node)
-    ok2 = "test_node.should_run = flag.__get__(test_node)" in src and "flagged.extend(test_node.cleanup_nodes)" in src and "flagged = [test_node]" in src
+    # the work list starts with the root (or, skipping it, with its children) and grows by the children of every flagged node
+    starts = [ast.unparse(s_.value) for s_ in ast.walk(f.node) if isinstance(s_, ast.Assign) and ast.unparse(s_.targets[0]) == "flagged"]
+    ok2 = "test_node.should_run = flag.__get__(test_node)" in src and "flagged.extend(test_node.cleanup_nodes)" in src \
+        and starts == ["list(test_node.cleanup_nodes) if skip_parents else [test_node]"]
     ctx.record(rule + "f", "TABLE", f.ref, "flag_children binds the flag to each node reached through cleanup edges from the root (root included unless skipped)", ok2, {},
                "" if ok2 else "flag_children no longer reaches every descendant of the root")
 
